@@ -8,6 +8,8 @@ import (
 	"encoding/gob"
 	"encoding/json"
 	"fmt"
+	"github.com/iden3/go-iden3-crypto/poseidon"
+	"github.com/iden3/go-merkletree-sql/v2"
 	"math/big"
 	"sort"
 	"strings"
@@ -465,6 +467,39 @@ func (g *c12) verifiers(n int) {
 		for _, p := range paths {
 			doc := edit(deepCopy(baseObj), p, func(any) (any, bool) { return nil, true })
 			g.probe("verify-removed", J{"removed": fmt.Sprint(p)}, []string{"verify", "removed:1"}, verify(doc))
+		}
+		// tree roots removed together with a state value that is consistent with their absence (a missing root means zero):
+		// the consistency check passes, what comes after it must cope with the missing member
+		if top, ok := baseObj.(map[string]any); ok {
+			if proofs, ok := top["proof"].([]any); ok {
+				for pi := range proofs {
+					for mask := 1; mask < 8; mask++ {
+						doc := deepCopy(baseObj)
+						pr, _ := doc.(map[string]any)["proof"].([]any)[pi].(map[string]any)
+						idata, _ := pr["issuerData"].(map[string]any)
+						st, _ := idata["state"].(map[string]any)
+						if st == nil {
+							continue
+						}
+						var vals []*big.Int
+						for i, nm := range []string{"claimsTreeRoot", "revocationTreeRoot", "rootOfRoots"} {
+							v := big.NewInt(0)
+							if mask>>uint(i)&1 == 1 {
+								delete(st, nm)
+							} else if hx, ok := st[nm].(string); ok {
+								if h, err := merkletree.NewHashFromHex(hx); err == nil {
+									v = h.BigInt()
+								}
+							}
+							vals = append(vals, v)
+						}
+						if sv, err := poseidon.Hash(vals); err == nil {
+							st["value"] = *hexOfInt(sv)
+						}
+						g.probe("verify-roots-omitted-consistently", J{"proof": pi, "mask": mask}, []string{"verify", "roots-omitted-consistently"}, verify(doc))
+					}
+				}
+			}
 		}
 		// pairs (inside the proofs)
 		var pp []jpath
